@@ -281,6 +281,8 @@ class SeqModel:
 
     def check(self, hist, op, obs, st):
         base = self.baseline(op)
+        if isinstance(obs, tuple) and obs and obs[0] == "encrypted" and obs[2] != "iv-drawn-by-this-call":
+            return [viol(f"an encryption does not use an IV drawn for this call [{op}]", f"after {list(hist)}: {obs}")]
         if obs != base:
             return [viol(f"outcome of a call depends on earlier calls on shared objects [{op}]",
                          f"after {list(hist)} the call observed {str(obs)[:200]}; as the first call on fresh objects it observes {str(base)[:200]}")]
@@ -386,9 +388,10 @@ def h_pairs(ctx):
                 return ops()[n](fx, _ThreadDraws(f"T{i}"))
             bodies.append(body)
         results = sch.run(bodies, labels=[f"T{i}" for i in range(len(names))], seam=rseam)
-    finally:
+    except BaseException:
         pick_seam.uninstall()
         rseam.uninstall()
+        raise
     vs = []
     npre = ctx.cost
     for i, (n, res, b) in enumerate(zip(names, results, base)):
@@ -402,6 +405,24 @@ def h_pairs(ctx):
                            f"thread {i} ({n}) running with {other}: observed {str(obs)[:160]}, in isolation {str(b)[:160]}; schedule with {npre} preemption(s), {sch.npoints} scheduling points, switches at {_switches(sch.trace)[:6]}"))
     for msg in final_state(fx):
         vs.append(viol("shared object left in a state no sequential order produces", f"{names}: {msg}"))
+    # per-call fresh IV, also across the two concurrent calls
+    for o in [r[1] for r in results if r[0] and isinstance(r[1], tuple) and r[1] and r[1][0] == "encrypted"]:
+        if o[2] != "iv-drawn-by-this-call":
+            vs.append(viol("an encryption does not use an IV drawn for this call", f"{names}: {o}"))
+    # nothing may be left behind: the same operations, run again one after the other on the same shared objects, behave as in isolation
+    if not vs:
+        for i, n in enumerate(names):
+            rseam.bind_thread("post")
+            try:
+                again = call(lambda n=n: ops()[n](fx, _ThreadDraws("post")))
+            finally:
+                rseam.unbind_thread()
+            obs = again.value if again.ok else ("raised", type(again.exc).__name__)
+            if obs != base[i]:
+                vs.append(viol(f"a call behaves differently AFTER two calls ran concurrently on the shared objects [{n}]",
+                               f"after the schedule of {names} ({npre} preemption(s), switches at {_switches(sch.trace)[:6]}) a plain sequential call observed {str(obs)[:160]}, in isolation {str(base[i])[:160]}"))
+    pick_seam.uninstall()
+    rseam.uninstall()
     return Outcome(f"{len(names)}T:pre{npre}:{'ok' if not vs else 'BAD'}", vs, nontrivial=(combo, tuple(ctx.choices[3:])))
 
 
